@@ -23,6 +23,13 @@ def fr : Option (Nat × Nat) → String
   | some (o, l) => s!"{o}+{l}"
   | none => "none"
 def hx (b : Bytes) : String := if b.isEmpty then "-" else hexOfBytes b
+/-- a code point as four hex digits -/
+def hx4 (n : Nat) : String :=
+  String.ofList [hexDigit (n / 4096 % 16), hexDigit (n / 256 % 16), hexDigit (n / 16 % 16), hexDigit (n % 16)]
+/-- the number the harness prints for an `AudioType` variant -/
+def audioTypeNum : Tables.AudioType → Nat
+  | .undefined => 0 | .cleanEffects => 1 | .hearingImpaired => 2 | .visualImpairedCommentary => 3
+  | .reserved v => v
 
 def rOut {α} (r : R α) (f : α → String) : String :=
   match r with
@@ -100,7 +107,7 @@ def fParsed (c : Bytes) : R String := do
   let pd ← Pes.ptsDts c; let escr ← Pes.escr c; let er ← Pes.esRate c; let tr ← Pes.dsmTrickMode c
   let aci ← Pes.additionalCopyInfo c; let crc ← Pes.previousCrc c; let ex ← Pes.pesExtension c
   let po ← Pes.payloadOffset c
-  pure s!"prio={prio} align={fb al} cr={fb cr} orig={fb orig} ptsdts={fPtsDts pd} escr={fPesRes fCref escr} esrate={fPesRes (fun v => s!"{v}") er} trick={fPesRes fTrick tr} aci={fPesRes (fun v => s!"{v}") aci} crc={fPesRes (fun v => s!"{v}") crc} extn={fPesRes (fun (v : Nat × Nat) => s!"{v.1}+{v.2}") ex} pl={po}+{c.length - po}"
+  pure s!"prio={prio} align={fb al} cr={fb cr} orig={fb orig} ptsdts={fPtsDts pd} escr={fPesRes fCref escr} esrate={fPesRes (fun v => s!"{v}.{Pes.bytesPerSecond v}") er} trick={fPesRes fTrick tr} aci={fPesRes (fun v => s!"{v}") aci} crc={fPesRes (fun v => s!"{v}") crc} extn={fPesRes (fun (v : Nat × Nat) => s!"{v.1}+{v.2}") ex} pl={po}+{c.length - po}"
 
 def opPes (buf : Bytes) : R String := do
   match ← Pes.headerFromBytes buf with
@@ -142,7 +149,7 @@ def fPat (es : List Tables.PatEntry) : String :=
     | .program n p => s!"p:{n}:{p}")
 
 def fLang : Tables.LangItem → String
-  | .lang code at_ => s!"{hx code}.{at_}"
+  | .lang code at_ => s!"{String.join ((Tables.langCodePoints code).map hx4)}.{audioTypeNum (Tables.audioTypeOf at_)}"
   | .tooShort n => s!"short.{n}"
 
 def fDescItem : Tables.DescItem → R String
